@@ -15,58 +15,58 @@ def parseDefiningExpression (s : Validate.Str) : Except Validate.Kind (Validate.
   let lhs : Validate.Str := (Validate.splitEq s).1
   let lhs_ : List Validate.Str := (Validate.tokens lhs)
   if (¬ ((List.length lhs_) = 1)) then
-    .error Validate.Kind.lhsTokens
+    Except.error Validate.Kind.lhsTokens
   else
     let lhs : Validate.Str := (lhs_.headD [])
     let symbol_match : Option Validate.Str := (Validate.firstIdent s)
     if (symbol_match.isNone = true) then
-      .error Validate.Kind.noSymbol
+      Except.error Validate.Kind.noSymbol
     else
       let symbol : Validate.Str := (symbol_match.getD [])
       let order : Nat := (Validate.countChar '\'' lhs)
-      .ok (symbol, order)
+      Except.ok (symbol, order)
 
 -- source: odetoolbox/shapes.py :: Shape.from_json
 /-- `for (iv_lhs, iv_rhs) in indict['initial_values'].items():` of `from_json` -/
 def fromJson_for1 (order : Nat) (symbol : Validate.Str) : List (Validate.Str × Validate.Str) → List Bool → Except Validate.Kind (List Bool)
-  | [], initial_val_specified => .ok initial_val_specified
+  | [], initial_val_specified => Except.ok initial_val_specified
   | (iv_lhs, iv_rhs) :: rest__, initial_val_specified =>
     let symbol_match : Option Validate.Str := (Validate.firstIdent iv_lhs)
     if (symbol_match.isNone = true) then
-      .error Validate.Kind.ivNoSymbol
+      Except.error Validate.Kind.ivNoSymbol
     else
       let iv_symbol : Validate.Str := (symbol_match.getD [])
       if (¬ (iv_symbol = symbol)) then
-        .error Validate.Kind.ivOtherVariable
+        Except.error Validate.Kind.ivOtherVariable
       else
         let iv_order : Nat := (Validate.countChar '\'' iv_lhs)
         if (iv_order ≥ order) then
-          .error Validate.Kind.ivOrderTooHigh
+          Except.error Validate.Kind.ivOrderTooHigh
         else
           if (initial_val_specified.getD iv_order false = true) then
-            .error Validate.Kind.ivDuplicate
+            Except.error Validate.Kind.ivDuplicate
           else
             let initial_val_specified : List Bool := (initial_val_specified.set iv_order true)
             fromJson_for1 order symbol rest__ initial_val_specified
 
 /-- `for (iv_lhs, iv_rhs) in indict['initial_values'].items():` of `from_json` -/
 def fromJson_for2 (order : Nat) (symbol : Validate.Str) : List (Validate.Str × Validate.Str) → List Bool → Except Validate.Kind (List Bool)
-  | [], initial_val_specified => .ok initial_val_specified
+  | [], initial_val_specified => Except.ok initial_val_specified
   | (iv_lhs, iv_rhs) :: rest__, initial_val_specified =>
     let symbol_match : Option Validate.Str := (Validate.firstIdent iv_lhs)
     if (symbol_match.isNone = true) then
-      .error Validate.Kind.ivNoSymbol
+      Except.error Validate.Kind.ivNoSymbol
     else
       let iv_symbol : Validate.Str := (symbol_match.getD [])
       if (¬ (iv_symbol = symbol)) then
-        .error Validate.Kind.ivOtherVariable
+        Except.error Validate.Kind.ivOtherVariable
       else
         let iv_order : Nat := (Validate.countChar '\'' iv_lhs)
         if (iv_order ≥ order) then
-          .error Validate.Kind.ivOrderTooHigh
+          Except.error Validate.Kind.ivOrderTooHigh
         else
           if (initial_val_specified.getD iv_order false = true) then
-            .error Validate.Kind.ivDuplicate
+            Except.error Validate.Kind.ivDuplicate
           else
             let initial_val_specified : List Bool := (initial_val_specified.set iv_order true)
             fromJson_for2 order symbol rest__ initial_val_specified
@@ -74,64 +74,64 @@ def fromJson_for2 (order : Nat) (symbol : Validate.Str) : List (Validate.Str × 
 /-- `from_json` -- the structural checks of one `dynamics` entry, in source order; every `raise MalformedInputException` is the error kind named after its message; `indict` is the record of the three keys the checks look at; the initial values themselves, the bounds and the construction of the shape (`from_function` / `from_ode`) are outside: the result is (symbol, order) -/
 def fromJson (e : Validate.Entry) : Except Validate.Kind (Validate.Str × Nat) :=
   if (e.expression.isNone = true) then
-    .error Validate.Kind.noExpression
+    Except.error Validate.Kind.noExpression
   else
     if (¬ Validate.countChar '=' (e.expression.getD []) = 1) then
-      .error Validate.Kind.eqCount
+      Except.error Validate.Kind.eqCount
     else
       match parseDefiningExpression (e.expression.getD []) with
-      | .error e__ => .error e__
-      | .ok (symbol, order) =>
+      | Except.error e__ => Except.error e__
+      | Except.ok (symbol, order) =>
         if ((e.initialValue.isNone = true) ∧ (e.initialValues.isNone = true) ∧ (order > 0)) then
-          .error Validate.Kind.noInitialValues
+          Except.error Validate.Kind.noInitialValues
         else
           if ((e.initialValue.isSome = true) ∧ (e.initialValues.isSome = true)) then
-            .error Validate.Kind.bothSpellings
+            Except.error Validate.Kind.bothSpellings
           else
             if (e.initialValue.isSome = true) then
               if (¬ (order = 1)) then
-                .error Validate.Kind.singleNotFirstOrder
+                Except.error Validate.Kind.singleNotFirstOrder
               else
                 if (e.initialValues.isSome = true) then
                   if (¬ ((e.initialValues.getD []).length = order)) then
-                    .error Validate.Kind.wrongNumber
+                    Except.error Validate.Kind.wrongNumber
                   else
                     let initial_val_specified : List Bool := (List.replicate order false)
                     match fromJson_for1 order symbol (e.initialValues.getD []) initial_val_specified with
-                    | .error e__ => .error e__
-                    | .ok initial_val_specified =>
+                    | Except.error e__ => Except.error e__
+                    | Except.ok initial_val_specified =>
                       if (initial_val_specified.all id = false) then
-                        .error Validate.Kind.ivMissing
+                        Except.error Validate.Kind.ivMissing
                       else
                         if (order = 0) then
-                          .ok (symbol, order)
+                          Except.ok (symbol, order)
                         else
-                          .ok (symbol, order)
+                          Except.ok (symbol, order)
                 else
                   if (order = 0) then
-                    .ok (symbol, order)
+                    Except.ok (symbol, order)
                   else
-                    .ok (symbol, order)
+                    Except.ok (symbol, order)
             else
               if (e.initialValues.isSome = true) then
                 if (¬ ((e.initialValues.getD []).length = order)) then
-                  .error Validate.Kind.wrongNumber
+                  Except.error Validate.Kind.wrongNumber
                 else
                   let initial_val_specified : List Bool := (List.replicate order false)
                   match fromJson_for2 order symbol (e.initialValues.getD []) initial_val_specified with
-                  | .error e__ => .error e__
-                  | .ok initial_val_specified =>
+                  | Except.error e__ => Except.error e__
+                  | Except.ok initial_val_specified =>
                     if (initial_val_specified.all id = false) then
-                      .error Validate.Kind.ivMissing
+                      Except.error Validate.Kind.ivMissing
                     else
                       if (order = 0) then
-                        .ok (symbol, order)
+                        Except.ok (symbol, order)
                       else
-                        .ok (symbol, order)
+                        Except.ok (symbol, order)
               else
                 if (order = 0) then
-                  .ok (symbol, order)
+                  Except.ok (symbol, order)
                 else
-                  .ok (symbol, order)
+                  Except.ok (symbol, order)
 
 end OdeVerif.Generated
